@@ -19,11 +19,12 @@ FNS = ["t_arith", "t_shift", "t_shift32", "t_u8", "t_cast", "t_castbool", "t_div
        # phase 2
        "h_recs", "h_list", "h_gen", "t_for_range", "t_for_list", "t_loop2", "t_iter_sum", "t_iter_misc", "t_scan",
        "t_index", "t_slice", "t_lastfirst", "t_set", "t_sip", "t_u128", "t_u128b", "t_try", "t_iflet",
-       "t_matchstmt", "t_gen", "t_rev", "t_structlit", "h_iter", "t_incl", "h_bytes", "t_bytes"]
+       "t_matchstmt", "t_gen", "t_rev", "t_structlit", "h_iter", "t_incl", "h_bytes", "t_bytes",
+       "h_fee", "h_lock", "h_verify"]
 METHODS = [("Nt", "low"), ("Nt", "opt"), ("Pt", "cap"), ("Pt", "off")]
 HELPERS = [("Dn", "from_num"), ("Dn", "to_num"), ("Rec", "mk"), ("Sip", "new"), ("Sip", "round"), ("Sip", "hash"),
            ("Sip", "digest"), ("Sip", "bump")]      # translated, exercised through the `t_*` functions
-SKIP_EVAL = {"h_recs", "h_gen", "h_bytes", "h_iter"}                     # parameters / results that are not integers
+SKIP_EVAL = {"h_recs", "h_gen", "h_bytes", "h_iter", "h_fee", "h_lock", "h_verify"}                     # parameters / results that are not integers
 WL = [Entry(F, None, f, f, "FnsSelftest", {1: 70}) for f in FNS] + \
      [Entry(F, t, m, f"{t}_{m}", "FnsSelftest") for t, m in METHODS + HELPERS] + \
      [Entry(F, "Hp", "node", "Hp_node", "FnsSelftest"),
@@ -98,7 +99,12 @@ def main():
         lean_body.append(f"#eval show IO Unit from do\n  for r in ([{ltab}] : List (List Nat)) do\n"
                          f"    IO.println ({label} ++ \" => \" ++ {lcall})")
     # hand-written wrappers around translated methods whose receiver cannot be built from integers by the translator
-    for name, k, lean_expr in [("t_result", 3, "(unwrapD (Hp_node [r.getD 0 0, r.getD 1 0, r.getD 2 0, (r.getD 0 0) ^^^ (r.getD 1 0)] "
+    KF_L = ("[(⟨Kf.Plain (r.getD 0 0)⟩ : Kern), ⟨Kf.Coinbase⟩, ⟨Kf.Locked (r.getD 1 0) (r.getD 0 0 % 1000)⟩, "
+            "⟨Kf.Nrd (r.getD 0 0 ^^^ r.getD 1 0) 7⟩, ⟨Kf.Locked 5 (r.getD 1 0 % 777)⟩]")
+    WT_L = ("(match r.getD 0 0 % 3 with | 0 => Wt.AsTx | 1 => Wt.AsLimited (r.getD 1 0) | _ => Wt.NoLimit)")
+    for name, k, lean_expr in [("t_kf", 2, f"(h_fee {KF_L}, h_lock {KF_L})"),
+                               ("t_wt", 3, f"(match h_verify {WT_L} (r.getD 2 0) 40000 with | some () => 1 | none => 0)"),
+                               ("t_result", 3, "(unwrapD (Hp_node [r.getD 0 0, r.getD 1 0, r.getD 2 0, (r.getD 0 0) ^^^ (r.getD 1 0)] "
                                 "((r.getD 2 0) ||| 255) (r.getD 0 0) ((r.getD 1 0) &&& 1))) ^^^ Hp_ext (r.getD 2 0) 3")]:
         cols = [values("u64", rnd, 40) for _ in range(k)]
         tuples = [tuple(rnd.choice(c) for c in cols) for _ in range(300)]
@@ -136,6 +142,12 @@ def main():
           'fn show<T: Show>(x: &T) -> String { x.show() }',
           'fn p(l: &str, r: std::thread::Result<String>) { match r { Ok(s) => println!("{} => {}", l, s), '
           'Err(_) => println!("{} => panic", l) } }',
+          'fn t_kf(a: u64, b: u64) -> (u64, u64) { let ks = vec![Kern { features: Kf::Plain { fee: a }, excess: String::new() }, '
+          'Kern { features: Kf::Coinbase, excess: String::new() }, Kern { features: Kf::Locked { fee: b, lock: a % 1000 }, excess: String::new() }, '
+          'Kern { features: Kf::Nrd { fee: a ^ b, rel: 7 }, excess: String::new() }, '
+          'Kern { features: Kf::Locked { fee: 5, lock: b % 777 }, excess: String::new() }]; (h_fee(&ks), h_lock(&ks)) }',
+          'fn t_wt(a: u64, b: u64, c: u64) -> u64 { let w = match a % 3 { 0 => Wt::AsTx, 1 => Wt::AsLimited(b), _ => Wt::NoLimit }; '
+          'match h_verify(w, c, 40000) { Ok(()) => 1, Err(_) => 0 } }',
           'fn main() {', '    std::panic::set_hook(Box::new(|_| {}));'] + rs_body + ['}']
     open(os.path.join(WORK, "main.rs"), "w").write("\n".join(rs) + "\n")
     r = subprocess.run(["rustc", "-O", "-C", "overflow-checks=off", "-A", "warnings", "-o",
